@@ -5,7 +5,7 @@ LEVEL = 'other'
 
 def run(prog, rec, tier):
     H = hash_rules.HashRules(prog, rec)
-    for part in ('tables', 'finaliser', 'output', 'drivers', 'buffer'):
+    for part in ('tables', 'finaliser', 'output', 'drivers', 'buffer', 'buffer_sim'):
         getattr(H, part)()
     try:
         from . import term_rules
